@@ -793,10 +793,10 @@ Section WalletProofs.
     destruct E as [I' _]. destruct r; assumption.
   Qed.
 
-  Lemma import_account_inv : forall w label addr pub sch alg curve prm pwd k, Inv w ->
-    get_meta_by_address blob w addr = None -> Inv (fst (import_account w label addr pub sch alg curve prm pwd k)).
+  Lemma import_account_inv : forall w label addr pub sch alg curve hash isdef prm pwd k, Inv w ->
+    get_meta_by_address blob w addr = None -> Inv (fst (import_account w label addr pub sch alg curve hash isdef prm pwd k)).
   Proof.
-    intros w label addr pub sch alg curve prm pwd k I Hf. unfold import_account.
+    intros w label addr pub sch alg curve hash isdef prm pwd k I Hf. unfold import_account.
     match goal with |- context[add_account_data w ?x] => destruct (add_account_data w x) as [w' r] eqn:E; apply add_inv in E; try assumption; try reflexivity end.
     destruct E as [I' _]. assumption.
   Qed.
@@ -808,11 +808,11 @@ Section WalletProofs.
     apply negb_false_iff, scrypt_eqb_eq in C2. assumption.
   Qed.
 
-  Lemma op_clean_import : forall (w : wallet) label addr pub sch alg curve prm pwd k,
-    op_clean key blob w (OImport key label addr pub sch alg curve prm pwd k) ->
+  Lemma op_clean_import : forall (w : wallet) label addr pub sch alg curve hash isdef prm pwd k,
+    op_clean key blob w (OImport key label addr pub sch alg curve hash isdef prm pwd k) ->
     prm = open_params blob w /\ pwd <> "" /\ get_meta_by_address blob w addr = None.
   Proof.
-    intros w label addr pub sch alg curve prm pwd k [C12 C3]. cbn [op_caller_ok in_finding_class] in *. destruct C12 as [C1 C2]. repeat split; try assumption.
+    intros w label addr pub sch alg curve hash isdef prm pwd k [C12 C3]. cbn [op_caller_ok in_finding_class] in *. destruct C12 as [C1 C2]. repeat split; try assumption.
     destruct (get_meta_by_address blob w addr); [discriminate|reflexivity].
   Qed.
 
@@ -1246,7 +1246,7 @@ Qed.
 (** ** witnesses of the three defects, on the executable instance *)
 Local Open Scope N_scope.
 Definition wit_key : keyinfo N := {| ki_key := 7; ki_addr := "A1"; ki_pub := "02aa"; ki_alg := 0; ki_curve := "P-256" |}.
-Definition wit_import (prm : scrypt) : op N := OImport N "main" "A1" "02aa" 1 0 "P-256" prm "pw" 7.
+Definition wit_import (prm : scrypt) : op N := OImport N "main" "A1" "02aa" 1 0 "P-256" "" false prm "pw" 7.
 
 (** newaccount:wallet-scrypt-ignored — a wallet exported with --low-security, then `account add` *)
 Definition wit_newaccount : list (op N) := [ONew N "main" 1 "pw" wit_key].
